@@ -143,7 +143,7 @@ class LockProxy:
     def _ev(self, what):
         inner = getattr(self.real, "lock", self.real)
         names = _CURRENT.setdefault("locknames", {})
-        ev = (what, names.setdefault(id(inner), f"lock:L{len(names)}"))
+        ev = (what, names.setdefault(id(inner), f"lock:L{len(names)}"))  # setup() pre-names the locks after the first variable holding them
         if _CURRENT["ctl"] is not None:
             _CURRENT["ctl"].gate(ev)
         if _rec() is not None:
@@ -247,7 +247,10 @@ SCENARIOS = {
     # selections xarray hands over as outer (list) indexers, against a slice load of the same variable
     "list-selection@shared-handle": [("a", slice(2, 4)), ("a", [3, 0])],
     "list-selection.pickled-copy@shared-handle": [("a", [0, 2]), ("a_copy", [3, 1])],
+    # a load that fails (damaged file) next to loads of intact lines of the same image: the others still finish with their values
+    "failed-load": [("t", slice(2, 4)), ("t", slice(0, 2)), ("t", slice(1, 2))],
 }
+ISOLATED = {"failed-load"}  # each load's program is recorded on a fresh setup (a load that fails must not be able to block the recording)
 
 
 def _sel(sl):
@@ -268,8 +271,18 @@ def setup(names_needed, shared=False):
     if "a_copy" in names_needed:
         variables["a_copy"] = pickle.loads(pickle.dumps(variables["a"]))  # pickled with the real lock inside (its own protocol)
         datas["a_copy"] = datas["a"]
-    for v in variables.values():
-        instrument_lock(v)
+    if "t" in names_needed:
+        # an image file cut in the middle of its last line record: loading that line raises (single-threaded too)
+        arrs["t"], datas["t"] = build_image(fs, "IMG-t", seed=9, array_cls=TracedArray)
+        fs.files["IMG-t"] = fs.files["IMG-t"][:-4]
+        variables["t"] = to_xr(arrs["t"])
+    for nm, v in variables.items():
+        if instrument_lock(v):
+            obj = v._data
+            while not isinstance(getattr(obj, "lock", None), LockProxy):
+                obj = obj.array
+            inner = getattr(obj.lock.real, "lock", obj.lock.real)
+            _CURRENT["locknames"].setdefault(id(inner), f"lock:{nm}")  # the same name in every setup of this scenario
     return fs, variables, datas
 
 
@@ -279,16 +292,28 @@ def record(scenario):
     fs, variables, datas = setup({nm for nm, _ in loads}, shared=scenario.endswith("@shared-handle"))
     programs, results = [], []
     for nm, sl in loads:
+        if scenario in ISOLATED:
+            fs, variables, datas = setup({nm for nm, _ in loads}, shared=scenario.endswith("@shared-handle"))
         rec = Recorder()
         fs.rec = rec
         _CURRENT["rec"] = rec
         try:
             out = np.asarray(variables[nm][sl].values)
+        except Exception as e:  # noqa: BLE001 - the single-threaded outcome of this load is an exception
+            out = ("raised", type(e).__name__)
         finally:
             fs.rec = None
             _CURRENT["rec"] = None
-        programs.append(rec.events)
+        events = rec.events
+        if scenario in ISOLATED and not scenario.endswith("@shared-handle"):
+            # recorded on a fresh filesystem each: handle numbers restart, but in one process every open gets its own handle
+            events = [(e[0], f"{e[1]}@load{len(programs)}") + tuple(e[2:]) if e[0] in ("open", "seek", "read", "close") else e for e in events]
+        programs.append(events)
         results.append(out)
+        if isinstance(out, tuple):
+            if nm != "t" or (sl.stop or 0) < 4:
+                raise AssertionError(f"sequential load of {nm}[{sl}] raised {out[1]}")
+            continue
         want = datas[nm][sl]
         if not np.array_equal(out, want):
             raise AssertionError(f"sequential load of {nm}[{sl}] does not return the stored samples")
@@ -318,6 +343,15 @@ def encode(programs):
                 open_[ev[1]] = k
             elif ev[0] == "release" and ev[1] in open_:
                 sections.append((i, ev[1], open_.pop(ev[1]), k))
+    unreleased = []  # (thread, lock, t_acquire): the load ended (e.g. by an exception) still holding the lock
+    for i, p in enumerate(programs):
+        held = {}
+        for k, ev in enumerate(p):
+            if ev[0] == "acquire":
+                held[ev[1]] = k
+            elif ev[0] == "release":
+                held.pop(ev[1], None)
+        unreleased += [(i, l, k) for l, k in held.items()]
     for x in range(len(sections)):
         for y in range(x + 1, len(sections)):
             i, l1, a1, r1 = sections[x]
@@ -326,6 +360,15 @@ def encode(programs):
                 cons.append(z3.Or(T[i][r1] < T[j][a2], T[j][r2] < T[i][a1]))
     hazards = []
     labels = []
+    # deadlock: a load that ended holding a lock makes every later acquire of that lock wait forever
+    for i, l, a1 in unreleased:
+        for j, p in enumerate(programs):
+            if j == i:
+                continue
+            for m, ev in enumerate(p):
+                if ev[0] == "acquire" and ev[1] == l:
+                    hazards.append(T[i][a1] < T[j][m])
+                    labels.append((f"load {j} waits forever for {l}: load {i} ended without releasing it", (i, a1), (j, m)))
     # file level: a foreign event on my handle between my seek and my read / a foreign close before my use
     for i, p in enumerate(programs):
         seeks = {}
@@ -450,8 +493,9 @@ class Controller:
             self.cv.notify_all()
 
 
-def replay(scenario, schedule, programs):
-    """run the loads concurrently, gated events in the order of `schedule`; -> dict(reproduced, detail)"""
+def replay(scenario, schedule, programs, expected=None):
+    """run the loads concurrently, gated events in the order of `schedule`; -> dict(reproduced, detail)
+    expected: the single-threaded outcomes (arrays, or ("raised", exception type name)) from record()"""
     loads = SCENARIOS[scenario]
     fs, variables, datas = setup({nm for nm, _ in loads}, shared=scenario.endswith("@shared-handle"))
     gated = ("acquire", "open", "seek", "read", "close")
@@ -476,7 +520,7 @@ def replay(scenario, schedule, programs):
         for t in threads:
             t.start()
         for t in threads:
-            t.join(timeout=30)
+            t.join(timeout=12)
         hung = [i for i, t in enumerate(threads) if t.is_alive()]
     finally:
         fs.ctl = None
@@ -488,6 +532,9 @@ def replay(scenario, schedule, programs):
     for i, (nm, sl) in enumerate(loads):
         if i in hung:
             bad.append(f"load {i} ({nm}[{_sel(sl)}]) did not finish (deadlock)")
+        elif expected is not None and isinstance(expected[i], tuple):
+            if not (errors[i] or "").startswith(expected[i][1] + ":"):
+                bad.append(f"load {i} ({nm}[{_sel(sl)}]) raises {expected[i][1]} single-threaded, here: {errors[i] or 'returned values'}")
         elif errors[i]:
             bad.append(f"load {i} ({nm}[{_sel(sl)}]) raised {errors[i]}")
         elif not np.array_equal(results[i], datas[nm][sl]):
